@@ -17,13 +17,17 @@ from harness.translate.pysym import Emit, Untranslatable, definition, dotted
 META = dict(
     technique="Coq theorems on a model of SimulationAlgorithm (constructor as a decision function over abstract Python values, "
               "crash conditions of _run, post-processing on lists over Q/Z); requirement rows, key lists, constants, beta "
-              "parameters and the precision loop regenerated from the Python AST and proved equal to the model; exhaustive "
-              "decision-table and exact-rational list correspondence against the running code inside Coq (vm_compute)",
+              "parameters, the precision loop and the value of rounding_precision before it regenerated from the Python AST and "
+              "proved equal to the model; exhaustive decision-table and exact-rational list correspondence against the running "
+              "code inside Coq (vm_compute)",
     level_text="Unbounded theorems: beta parameters positive after the clamp, clip range, values in [0,1] (beta.rvs as a stated oracle), "
-               "ages strictly increasing after rounding/keep-first de-duplication/sorting, every requested visit present at its rounded "
-               "age with the values of the first such visit, individuals exact (ids '0'..'n-1' / table ids, one parameter row each), "
-               "a LeaspyAlgoInputError can only come from the constructor, exact characterisation of the accepted designs that raise "
-               "(C18_accepted_runs is refuted: F10 and further families), visit loop termination/divergence.",
+               "the rounding precision is total (0..3 for every spacing, 3 below 0.001: leaspy 6d6bb6f) and for every spacing the ages "
+               "are rounded to it, strictly increasing after rounding/keep-first de-duplication/sorting, every requested visit present "
+               "at its rounded age with the values of the first such visit; every spacing >= 0 is accepted and runs (the former F10 "
+               "refutation is now the theorem C18_min_spacing_runs); individuals exact (ids '0'..'n-1' / table ids, one parameter row "
+               "each), a LeaspyAlgoInputError can only come from the constructor, exact characterisation of the calls that complete "
+               "(C18_completes_iff: accepted + runnable_core; C18_accepted_runs stays refuted by the remaining families F10b-i), "
+               "visit loop termination/divergence.",
     level_note="Trusted: Coq kernel; python-ast translators (pysym, pyvalid); pandas round/duplicated/groupby, numpy RNG, scipy beta.rvs, "
                "leaspy estimate (the model values are taken from the implementation); float arithmetic compared with stated tolerances; "
                "NaN/inf parameters and mixed-type ID columns are outside the model.",
@@ -34,11 +38,12 @@ OBLIGATIONS = [
     "C18_beta_params_positive", "C18_beta_mean", "C18_clamp_factor_needed", "C18_clip_range", "C18_values_in_unit",
     "C18_ages_unique_increasing", "C18_ages_complete_rounded", "C18_first_visit_kept", "C18_round_half_even_tie",
     "C18_individuals_random", "C18_individuals_table", "C18_individuals_exact",
-    "C18_refuses_before_generation", "C18_precision_none", "C18_precision_some", "C18_default_precision",
-    "C18_min_spacing_refuted", "C18_accepted_crash_families_refuted", "C18_refusal_class_refuted",
-    "C18_accepted_runs_partial", "C18_run_ok_iff",
+    "C18_refuses_before_generation", "C18_precision_total", "C18_precision_finest", "C18_precision_some", "C18_default_precision",
+    "C18_min_spacing_runs", "C18_ages_rounded_every_spacing",
+    "C18_accepted_crash_families_refuted", "C18_refusal_class_refuted",
+    "C18_run_ok_iff", "C18_accepted_spacing_ok", "C18_completes_iff", "C18_accepted_runs_partial",
     "C18_visits_increasing", "C18_visits_terminate", "C18_visits_diverge_refuted",
-    "C18_tie_rows", "C18_tie_keys", "C18_tie_final", "C18_tie_precision", "C18_tie_beta", "C18_tie_adj_var",
+    "C18_tie_rows", "C18_tie_keys", "C18_tie_final", "C18_tie_precision", "C18_tie_precision_init", "C18_tie_beta", "C18_tie_adj_var",
     "C18_tie_constants", "C18_tie_options", "C18_tie_order",
 ]
 
@@ -175,17 +180,33 @@ def translate(run: Run) -> bool:
         iff = loop.body[0]
         if not (isinstance(iff, ast.If) and not iff.orelse and [_norm(s) for s in iff.body] == ["rounding_precision = precision", "break"]):
             raise Untranslatable("precision loop body: " + _norm(iff))
-        init = [a for a in _assigns(gd, "rounding_precision") if isinstance(a.value, ast.Constant)]
-        if len(init) != 1 or init[0].value.value is not None or gd.body.index(init[0]) > gd.body.index(loop):
-            raise Untranslatable("rounding_precision is not initialised to None before the loop")
+        # value of rounding_precision before the loop: `max(rounding_options)` / `min(...)` (largest / smallest key; the model's max_key / min_key),
+        # an int literal, or None (the code before the repair 6d6bb6f: round(None) raises when no option fits)
+        init = [a for a in gd.body if isinstance(a, ast.Assign) and len(a.targets) == 1 and _norm(a.targets[0]) == "rounding_precision"]
+        stores = [n for n in ast.walk(gd) if isinstance(n, ast.Name) and n.id == "rounding_precision" and not isinstance(n.ctx, ast.Load)]
+        i_opts = [i for i, s in enumerate(gd.body) if getattr(s, "value", None) is opts_node]
+        if len(init) != 1 or len(stores) != 2 or len(i_opts) != 1 or not (i_opts[0] < gd.body.index(init[0]) < gd.body.index(loop)):
+            raise Untranslatable("rounding_precision is not bound exactly once between rounding_options and the loop (and once inside it)")
+        iv = init[0].value
+        if isinstance(iv, ast.Constant) and iv.value is None:
+            init_coq = "None"
+        elif isinstance(iv, ast.Constant) and isinstance(iv.value, int) and not isinstance(iv.value, bool):
+            init_coq = f"Some ({iv.value})%Z"
+        elif _norm(iv) == "max(rounding_options)":
+            init_coq = "max_key gen_rounding_options"
+        elif _norm(iv) == "min(rounding_options)":
+            init_coq = "min_key gen_rounding_options"
+        else:
+            raise Untranslatable("initial value of rounding_precision: " + _norm(iv))
         zt = {"min_spacing_between_visits": "Q"}
         exz = pysym.Exec(pysym.Spec(types=zt))
-        body = "None"
+        body = "gen_precision_init"
         for p, v in reversed(sorted(opts)):        # sorted(): by key, as the code does
             c = exz.expr(iff.test, {"val": ("fconst", v), "precision": pysym.const(Fraction(p)),
                                     "min_spacing_between_visits": ("var", "min_spacing_between_visits")}, {})
             body = f"(if {Emit(zt, 'Q').boolean(c)} then Some ({p})%Z else {body})"
         out.append("Definition gen_rounding_options : list (Z * Q) := [" + "; ".join(f"(({p})%Z, {pyvalid.coq_q(v)})" for p, v in sorted(opts)) + "].\n")
+        out.append(f"Definition gen_precision_init : option Z := {init_coq}.\n")
         out.append(definition("gen_precision", [("min_spacing_between_visits", "Q")], "option Z", body))
         # order of the post-processing statements: round, then keep-first de-duplication
         srcs = [_norm(s) for s in gd.body]
@@ -289,7 +310,7 @@ def translate(run: Run) -> bool:
             raise Untranslatable("_check_features shape:\n" + "\n".join(_shape(_body(M["_check_features"]))))
         run.gen("GenC18", "\n".join(out))
         run.trusted.append("translator harness/translate/pyvalid.py + pysym.py + harness/props/c18.py (python ast -> requirement rows, key lists, "
-                           "constants, beta parameters, precision loop, statement order of simulate.py / base.py)")
+                           "constants, beta parameters, precision loop and the value bound before it, statement order of simulate.py / base.py)")
         return True
     except (Untranslatable, KeyError, OSError, SyntaxError, IndexError, AttributeError) as e:
         run.broken("translate:GenC18", f"{type(e).__name__}: {e}", kind="broken-translation")
@@ -468,7 +489,7 @@ def crash_reason(d, shape):
     if len(set(names)) != len(names):
         return "run:duplicate-feature-names"
     if d["visit_type"] == "random" and "min_spacing_between_visits" in P and P["min_spacing_between_visits"][1] < 0.001:
-        return "run:min-spacing-below-0.001"
+        return "run:min-spacing-below-0.001"      # repaired by leaspy 6d6bb6f (fixed finding): a crash here is a regression
     return None
 
 
@@ -727,6 +748,12 @@ def random_designs(rng, nf, thorough):
         dict(first_visit_mean=("float", 1e4)), dict(first_visit_mean=("float", -1e4)),                       # clip bounds
         dict(distance_visit_mean=("float", 0.0), distance_visit_std=("float", 0.5), time_follow_up_mean=("int", 1)),
         dict(patient_number=("int", 5), min_spacing_between_visits=("int", 3), time_follow_up_mean=("float", -6.0)),
+        # spacings below the finest option (accepted; 3 decimals since leaspy 6d6bb6f), visits dense enough to collide after rounding
+        dict(min_spacing_between_visits=("float", 0.0002), distance_visit_mean=("float", 0.0015), distance_visit_std=("float", 0.001),
+             time_follow_up_mean=("float", 0.02), time_follow_up_std=("float", 0.005)),
+        dict(min_spacing_between_visits=("int", 0), patient_number=("int", 3), distance_visit_mean=("float", 0.0004),
+             distance_visit_std=("float", 0.0001), time_follow_up_mean=("float", 0.006), time_follow_up_std=("float", 0.001)),
+        dict(min_spacing_between_visits=("float", 0.00099999)),
     ]
     for sp in specs:
         out.append(dict(features=feats, visit_type="random", params=dict(GOOD, **sp)))
@@ -735,7 +762,7 @@ def random_designs(rng, nf, thorough):
                  first_visit_std=("float", rng.uniform(0, 3)), time_follow_up_mean=("float", rng.uniform(0, 6)),
                  distance_visit_mean=("float", rng.uniform(0.02, 1.5)), distance_visit_std=("float", rng.uniform(0, 0.5)))
         if rng.random() < 0.7:
-            P["min_spacing_between_visits"] = ("float", rng.choice([0.001, 0.002, 1 / 365, 0.01, 0.05, 0.1, 0.25, 1.0, 2.5]))
+            P["min_spacing_between_visits"] = ("float", rng.choice([0.0, 1e-6, 0.0005, 0.001, 0.002, 1 / 365, 0.01, 0.05, 0.1, 0.25, 1.0, 2.5]))
         out.append(dict(features=feats, visit_type="random", params=P))
     return out
 
@@ -798,11 +825,13 @@ def directed_designs(nf):
 
 
 def expected_precision(d):
+    """Documented precision, written independently of the code: the coarsest of 0..3 decimals whose unit 10^-p is <= the
+    requested spacing; nobody wants more than a day (0.001 year), so finer spacings (0 included) get 3 decimals."""
     ms = d["params"].get("min_spacing_between_visits", ("float", 1 / 365))[1] if d["visit_type"] == "random" else 1 / 365
     for p, v in enumerate([1, 0.1, 0.01, 0.001]):
         if v <= ms:
             return p
-    return None
+    return 3
 
 
 def check_result(run: Run, d, shape, seed, res, rec, info):
@@ -839,15 +868,24 @@ def check_result(run: Run, d, shape, seed, res, rec, info):
         ages = df.loc[df["ID"] == i, "TIME"].to_numpy(dtype=float)
         if len(ages) == 0 or not np.all(np.isfinite(ages)) or not np.all(np.diff(ages) > 0):
             bad("result:ages-not-increasing", "ages of an individual are not unique and increasing", None, dict(id=i, ages=ages.tolist()))
-        if p is not None:
-            sc = ages * 10 ** p
-            if np.max(np.abs(sc - np.rint(sc))) > 1e-6 * max(1.0, np.max(np.abs(sc))):
-                bad("result:ages-not-rounded", f"ages are not multiples of 10^-{p}", None, dict(id=i, ages=ages.tolist()))
+        sc = ages * 10 ** p        # every spacing has a documented precision (3 decimals below 0.001)
+        if len(ages) and np.max(np.abs(sc - np.rint(sc))) > 1e-6 * max(1.0, np.max(np.abs(sc))):
+            bad("result:ages-not-rounded", f"ages are not multiples of 10^-{p}", None, dict(id=i, ages=ages.tolist()))
     if ok:
         vals = df[list(feats)].to_numpy(dtype=float)
         if not np.all(np.isfinite(vals)) or vals.min() < 0 or vals.max() > 1:
             bad("result:values-outside-unit-interval", "a simulated value is missing, not finite or outside [0,1]", "[0,1]",
                 dict(min=float(np.nanmin(vals)), max=float(np.nanmax(vals)), nan=int(np.isnan(vals).sum())))
+    if d["visit_type"] == "random" and ok and rec is not None and rec.timepoints is not None:
+        # the ages requested by the visit generator, rounded to the documented precision (duplicates dropped) — for every spacing
+        req = {str(k): v for k, v in rec.timepoints.items()}
+        for i in want_ids:
+            want = sorted({float(np.round(float(t), p)) for t in req.get(i, [])})
+            got = df.loc[df["ID"].astype(str) == i, "TIME"].to_numpy(dtype=float).tolist()
+            if len(want) != len(got) or any(abs(a - b) > 1e-9 for a, b in zip(want, got)):
+                bad("result:generated-ages", f"ages of an individual are not the generated visit ages rounded to {p} decimals "
+                    "(the documented precision for this spacing)", want, got)
+                break
     if d["visit_type"] == "dataframe" and ok:
         rows = d["params"]["df_visits"][3]
         for i in want_ids:
@@ -1112,7 +1150,7 @@ def main(run: Run):
         "NaN/inf parameters and ID columns mixing types are outside the model",
     ]
     run.explanation = ("Theorems (Coq, all designs / visit lists / precisions / model values) on a model whose requirement rows, key lists, constants, "
-                       "beta-parameter formulas and precision loop are regenerated from the Python AST and proved equal to the hand-written model; the "
+                       "beta-parameter formulas, precision loop and the precision bound before it are regenerated from the Python AST and proved equal to the hand-written model; the "
                        "constructor's decision function, the outcome of model.simulate, the row post-processing, the noise parameters and the visit loop are "
                        "run inside Coq (vm_compute, exact rationals) on what the implementation just did; property oracles run on every completed call.")
     if not ok_t or not ok_p:
